@@ -459,6 +459,17 @@ func (x *c08runner) run(fx *c08fx, c c08Case) {
 	e.r.Violation(sig, desc+" ["+c.String()+"]", c)
 }
 
+func c08uniq(in []int) (out []int) {
+	seen := map[int]bool{}
+	for _, v := range in {
+		if !seen[v] {
+			seen[v] = true
+			out = append(out, v)
+		}
+	}
+	return out
+}
+
 func c08subsets(ids []int, keep func(size int) bool) [][]int {
 	var out [][]int
 	n := len(ids)
@@ -481,11 +492,43 @@ func c08subsets(ids []int, keep func(size int) bool) [][]int {
 	return out
 }
 
+// c08canonSubsets: per size kept, the first-size, last-size and an evenly spread subset of ids (deduplicated).
+func c08canonSubsets(ids []int, keep func(size int) bool) [][]int {
+	var out [][]int
+	n := len(ids)
+	for size := 0; size <= n; size++ {
+		if !keep(size) {
+			continue
+		}
+		seen := map[string]bool{}
+		add := func(S []int) {
+			k := fmt.Sprint(S)
+			if !seen[k] {
+				seen[k] = true
+				out = append(out, S)
+			}
+		}
+		add(append([]int(nil), ids[:size]...))
+		add(append([]int(nil), ids[n-size:]...))
+		var sp []int
+		for i := 0; i < size; i++ {
+			pos := 0
+			if size > 1 {
+				pos = i * (n - 1) / (size - 1)
+			}
+			sp = append(sp, ids[pos])
+		}
+		add(sp)
+	}
+	return out
+}
+
 // c08plan describes the bounds of one (n, t) configuration in a tier.
 type c08plan struct {
 	posSizes   func(size int) bool // which subset sizes >= t get the positive checks
 	negAll     bool                // substitutions on every size-t subset (else: the canonical first-t and last-t subsets)
 	fewerSizes func(size int) bool // which subset sizes < t are aggregated as "too few"
+	canon      bool                // n > 10: canonical subsets per size (first, last, spread), substitutions at three positions
 }
 
 func c08planFor(n, t int) c08plan {
@@ -495,6 +538,16 @@ func c08planFor(n, t int) c08plan {
 			posSizes:   func(s int) bool { return s >= t },
 			negAll:     true,
 			fewerSizes: func(s int) bool { return s < t },
+		}
+	}
+	if n > 10 {
+		// large clusters (size-dependent code paths: chunking, worker pools, batch decoding): EVERY size |S| in t..n, per size
+		// the canonical subsets first-|S|, last-|S| and an evenly spread one; substitutions on the first-t and last-t subsets
+		// at the first, middle and last position; too few: the empty set and size t-1
+		return c08plan{
+			posSizes:   func(s int) bool { return s >= t },
+			fewerSizes: func(s int) bool { return s == t-1 || s == 0 },
+			canon:      true,
 		}
 	}
 	// n in 8..10 (thorough only): subsets of size t and n; substitutions on every size-t subset for n = 8,
@@ -527,7 +580,11 @@ func (x *c08runner) unit(n, t, si int) {
 
 		ids := fx.ids
 		// positive: every subset of the planned sizes
-		for _, S := range c08subsets(ids, plan.posSizes) {
+		subsetsOf := c08subsets
+		if plan.canon {
+			subsetsOf = c08canonSubsets
+		}
+		for _, S := range subsetsOf(ids, plan.posSizes) {
 			if e.r.Expired() {
 				return
 			}
@@ -541,7 +598,7 @@ func (x *c08runner) unit(n, t, si int) {
 			}
 		}
 		// negative: single substitutions in size-t subsets
-		tsubs := c08subsets(ids, func(s int) bool { return s == t })
+		tsubs := subsetsOf(ids, func(s int) bool { return s == t })
 		if !plan.negAll && len(tsubs) > 2 {
 			tsubs = [][]int{tsubs[0], tsubs[len(tsubs)-1]} // canonical: the first t and the last t shares
 		}
@@ -554,11 +611,26 @@ func (x *c08runner) unit(n, t, si int) {
 			for _, id := range S {
 				in[id] = true
 			}
+			positions, others := S, ids
+			if plan.canon { // three positions; as sibling / wrong index the first and last share and the neighbours of the position
+				positions = c08uniq([]int{S[0], S[len(S)/2], S[len(S)-1]})
+			}
 			for mi := range e.msgs {
 				if e.r.Expired() {
 					return
 				}
-				for _, pos := range S {
+				if plan.canon && mi != (n+t)%len(e.msgs) {
+					continue
+				}
+				for _, pos := range positions {
+					if plan.canon {
+						others = nil
+						for _, j := range c08uniq([]int{ids[0], pos - 1, pos + 1, ids[len(ids)-1], S[len(S)-1] + 1, S[0] - 1}) {
+							if j >= ids[0] && j <= maxID {
+								others = append(others, j)
+							}
+						}
+					}
 					nb := base
 					nb.Subset, nb.Msg, nb.Pos = S, mi, pos
 					c := nb
@@ -567,7 +639,7 @@ func (x *c08runner) unit(n, t, si int) {
 					c = nb
 					c.Kind = kForeign2
 					x.run(fx, c)
-					for _, j := range ids {
+					for _, j := range others {
 						if j == pos {
 							continue
 						}
@@ -575,7 +647,7 @@ func (x *c08runner) unit(n, t, si int) {
 						c.Kind, c.Arg = kSibling, j
 						x.run(fx, c)
 					}
-					for _, j := range append(append([]int(nil), ids...), maxID+1) {
+					for _, j := range append(append([]int(nil), others...), maxID+1) {
 						if in[j] {
 							continue
 						}
@@ -595,7 +667,7 @@ func (x *c08runner) unit(n, t, si int) {
 			}
 		}
 		// negative: fewer than t partials
-		for _, S := range c08subsets(ids, func(s int) bool { return s < t && plan.fewerSizes(s) }) {
+		for _, S := range subsetsOf(ids, func(s int) bool { return s < t && plan.fewerSizes(s) }) {
 			if e.r.Expired() {
 				return
 			}
@@ -687,6 +759,35 @@ func TestVerifC08(t *testing.T) {
 					return
 				}
 				x.unit(n, th, si)
+			}
+		}
+	}
+	// large clusters: every subset size in t..n (canonical subsets), see c08planFor
+	largeN := []int{11, 12, 13, 14, 15, 16, 17, 18, 19, 20, 21, 22, 23, 24, 25, 31, 32, 33, 40}
+	if thorough {
+		largeN = nil
+		for n := 11; n <= 66; n++ {
+			largeN = append(largeN, n)
+		}
+		largeN = append(largeN, 100, 127, 128, 129, 255, 256, 257)
+	}
+	for _, n := range largeN {
+		ths := c08uniq([]int{2, (2*n + 2) / 3, n})
+		if n > 25 {
+			ths = []int{2} // all sizes 2..n are aggregated in the t=2 configuration
+		}
+		for _, th := range ths {
+			for si := 0; si < 2 && si < len(secrets); si++ {
+				if n > 66 && si > 0 {
+					continue
+				}
+				if !r.Mine() {
+					continue
+				}
+				if r.Expired() {
+					return
+				}
+				x.unit(n, th, 3+si) // the two fixed 32-byte patterns
 			}
 		}
 	}
